@@ -6,7 +6,7 @@ from harness.common import Broken, COQ, REPO
 from translator import pygen
 
 PID = "C14"
-GENS = ["GenIter", "GenLazyPool"]
+GENS = ["GenIter", "GenLazyPool", "GenPipeline"]   # GenPipeline: the structure of the interfaces the composed bounds are about
 
 
 def bound(q, k, min_ex):
@@ -37,6 +37,10 @@ def jobs_for(ctx, n):
                 fp = rng.choice([1, 2, 3, 5])
                 reqs.append({"iface": iface, "split": 0, "shuffle": sh, "repeat": repeat, "file_parallelism": fp,
                              "take": rng.choice([1, 2, 5, 12, 25]), "spy": True, "delay": 0.004})
+        # one slow shard at the head of the ordered readers: the other workers must not keep reading ahead meanwhile
+        for iface in ("concurrent", "async"):
+            reqs.append({"iface": iface, "split": 0, "shuffle": 0, "repeat": True, "file_parallelism": rng.choice([2, 3, 5]),
+                         "take": rng.choice([1, 2, 5]), "spy": True, "delay": 0.004, "slow_first": 0.8})
         jobs.append({"dataset": spec, "requests": reqs})
     return jobs
 
